@@ -229,3 +229,13 @@ def _(B, p, K, X):
 def _(B, p, X):
     return B.and_(B.implies(B.ptrue(p), B.eq(B.filter(p, X), X)),
                   B.implies(B.pfalse(p), B.eq(B.rlen(B.filter(p, X)), B.i(0))))
+
+
+@law("join-false", "L", "p:Pred K:TagSet X:RS Y:RS", lambda B, p, K, X, Y: B.join(p, K, X, Y))
+def _(B, p, K, X, Y):
+    return B.implies(B.pfalse(p), B.eq(B.rlen(B.join(p, K, X, Y)), B.i(0)))
+
+
+@law("join-empty", "L", "p:Pred K:TagSet X:RS Y:RS", lambda B, p, K, X, Y: B.join(p, K, X, Y))
+def _(B, p, K, X, Y):
+    return B.implies(B.or_(B.eq(B.rlen(X), B.i(0)), B.eq(B.rlen(Y), B.i(0))), B.eq(B.rlen(B.join(p, K, X, Y)), B.i(0)))
